@@ -1234,6 +1234,27 @@ func checkLineReader(c *Ctx, p *core.Prog) {
 	if !c.R.Anchor(fn != nil, "results.readFileLines") {
 		return
 	}
+	// the loop that scans the lines may live in a helper of readFileLines (handed the reader and the two line numbers),
+	// and the scanner may be made - and its limit raised - by a constructor of the package
+	for _, call := range core.CallsIn(fn) {
+		h := call.Common().StaticCallee()
+		if h == nil || core.FuncPkgPath(h) != resultsPkg || len(h.Blocks) == 0 {
+			continue
+		}
+		for _, inner := range core.CallsIn(h) {
+			if core.StaticCalleeName(inner.Common()) == "(*bufio.Scanner).Scan" {
+				ints := 0
+				for _, prm := range h.Params {
+					if bt, ok := prm.Type().Underlying().(*types.Basic); ok && bt.Kind() == types.Int {
+						ints++
+					}
+				}
+				if ints == 2 && len(h.Params) == 3 {
+					fn = h
+				}
+			}
+		}
+	}
 	var scanner *ssa.Call
 	var scanCall, bufCall ssa.CallInstruction
 	for _, call := range core.CallsIn(fn) {
@@ -1246,12 +1267,43 @@ func checkLineReader(c *Ctx, p *core.Prog) {
 			bufCall = call
 		}
 	}
+	ctorBuffered := int64(-1)
+	if scanner == nil && scanCall != nil {
+		// scanner := newLineScanner(r): a constructor that makes the scanner and raises its limit before handing it out
+		if mk, ok := scanCall.Common().Args[0].(*ssa.Call); ok {
+			if g := mk.Call.StaticCallee(); g != nil && core.FuncPkgPath(g) == resultsPkg && len(g.Blocks) > 0 {
+				var gs *ssa.Call
+				var gb ssa.CallInstruction
+				for _, gc := range core.CallsIn(g) {
+					switch core.StaticCalleeName(gc.Common()) {
+					case "bufio.NewScanner":
+						gs, _ = gc.(*ssa.Call)
+					case "(*bufio.Scanner).Buffer":
+						gb = gc
+					}
+				}
+				if gs != nil {
+					scanner = mk
+					ctorBuffered = 0
+					if gb != nil && gb.Common().Args[0] == ssa.Value(gs) {
+						if k, isK := core.ConstInt(gb.Common().Args[2]); isK {
+							ctorBuffered = k
+						}
+					}
+				}
+			}
+		}
+	}
 	if scanner == nil || scanCall == nil {
 		// an unbounded reader (bufio.Reader.ReadString etc.) is fine
 		c.R.OK("R19.6", "readFileLines: no token-limited scanner is used", p.Pos(fn.Pos()), "no bufio.Scanner in readFileLines")
 	} else {
 		ok, why := false, "the scanner keeps bufio's default 64 KiB token limit: a file with a longer line cannot be re-read, the JSON output is not written and the tool exits non-zero after printing matches"
-		if bufCall != nil && bufCall.Common().Args[0] == scanner && instrBeforeI(bufCall, scanCall) {
+		if ctorBuffered >= 1<<31-1 {
+			ok, why = true, fmt.Sprintf("the constructor of the scanner calls Buffer(_, %d) before it hands the scanner out", ctorBuffered)
+		} else if ctorBuffered > 0 {
+			why = fmt.Sprintf("the scanner's limit is raised only to %d bytes: longer lines still make the re-read fail", ctorBuffered)
+		} else if bufCall != nil && bufCall.Common().Args[0] == scanner && instrBeforeI(bufCall, scanCall) {
 			if k, isK := core.ConstInt(bufCall.Common().Args[2]); isK {
 				if k >= 1<<31-1 {
 					ok, why = true, fmt.Sprintf("scanner.Buffer(_, %d) before the first Scan", k)
